@@ -247,3 +247,8 @@ def noncanonical_entry_path_and_subdirectory_update(sc, v):
     if not has:
         return False
     return bool(re.search(r"update\([^)]*path='[^']", v.get('detail', '')))
+
+
+def detail_contains(sc, v, text=''):
+    """the violation's message carries the given text (e.g. 'embedded null byte')"""
+    return bool(text) and text in v.get('detail', '')
